@@ -15,6 +15,14 @@ const (
 	mHang         = "hang-login" // never answers; the attempt ends when the harness cancels the request context
 	mCloseLogin   = "close-login"
 	mCloseHS      = "close-handshake"
+	mSlowDial     = "slow-dial" // healthy, but Dial itself takes a while (slow at the connect stage)
+	// answers the login (>=764: also finishes the configuration phase), then stalls until the
+	// request's context has ended and the request has returned, and only THEN goes on to send
+	// JoinGame (unless the proxy has closed the connection, as it must)
+	mStallJoin = "stall-join"
+	// the same script as it acts on a >=764 client: the previous server is given up when the
+	// backend accepts the login, so the timed-out attempt leaves the player without a server
+	mStallJoinCfg = "stall-join-after-config"
 )
 
 // Script is the behaviour of one fake backend for the whole scenario.
@@ -22,6 +30,7 @@ type Script struct {
 	Mode         string `json:"mode"`
 	Later        string `json:"later,omitempty"` // mode of every connection after the first ("" = same)
 	LoginDelayMs int    `json:"login_delay_ms,omitempty"`
+	DialDelayMs  int    `json:"dial_delay_ms,omitempty"`
 	KickDelayMs  int    `json:"kick_delay_ms,omitempty"`
 }
 
@@ -42,7 +51,8 @@ type Scenario struct {
 	PreSleepUs       []int             `json:"pre_connect_sleep_us,omitempty"` // the ServerPreConnectEvent handler sleeps one of these per call
 	ConnectedSleepUs int               `json:"connected_sleep_us,omitempty"`
 	KickedSleepUs    int               `json:"kicked_sleep_us,omitempty"`
-	Initial          string            `json:"initial,omitempty"` // if set: the first server of the try list at login time (a failing one)
+	Initial          string            `json:"initial,omitempty"`               // if set: the first server of the try list at login time (a failing one)
+	ConnTimeoutMs    int               `json:"connection_timeout_ms,omitempty"` // proxy's own connection timeout (context of the initial join and of fallbacks), 0 = default 5 s
 	Rounds           [][]ReqSpec       `json:"rounds"`
 }
 
@@ -57,16 +67,19 @@ func (s *Scenario) EffMode(server string, n int) string {
 	if m == mKickConfig && s.Proto < 764 {
 		return mAccept
 	}
+	if m == mStallJoin && s.Proto >= 764 {
+		return mStallJoinCfg
+	}
 	return m
 }
 
 // kickish: the backend gets the player (or at least takes the previous server away from it)
 // and then throws it out, so the proxy's fallback handling decides where the player ends up.
 func kickish(mode string) bool {
-	return mode == mKickPlay || mode == mKickPlayLate || mode == mKickConfig
+	return mode == mKickPlay || mode == mKickPlayLate || mode == mKickConfig || mode == mStallJoinCfg
 }
 
-func healthy(mode string) bool { return mode == mAccept || mode == mSlowAccept }
+func healthy(mode string) bool { return mode == mAccept || mode == mSlowAccept || mode == mSlowDial }
 
 // Request results.
 const (
